@@ -1,6 +1,7 @@
 import TxVerif.Props.C07
 import TxVerif.Tie.Skeleton
 import TxVerif.Props.C04C07Engine
+import TxVerif.Props.C03History
 open TxVerif
 #print axioms abort_is_identity
 #print axioms next_tx_identical
@@ -17,3 +18,16 @@ open TxVerif
 #print axioms c07_next_tx_reads
 #print axioms c07_next_tx_allocs
 #print axioms c07_next_tx_commit
+#print axioms engInvO_of_engInv
+#print axioms c03o_abort_restores
+#print axioms c03o_failed_commit_restores
+#print axioms runTxnO_inv
+#print axioms c03_history
+#print axioms c07o_abort_identity_engine
+#print axioms c07o_failed_commit_identity_engine
+#print axioms c07o_next_tx_identical
+#print axioms c07o_next_tx_identical_failed
+#print axioms c03_history_publishes
+#print axioms c03_history_untouched
+#print axioms c07_history_restored
+#print axioms c07_history_next_identical
